@@ -40,7 +40,7 @@ func (in *inv) callBuiltin(e *Expr) []cell {
 			later = later || b.fx
 		}
 		av[i] = in.evalStable(a, later)
-		in.use(av[i], e, "argument of "+s.name)
+		in.use(av[i], e, s.name)
 	}
 	n := 0
 	if s.ret != nil {
@@ -792,13 +792,13 @@ func (in *inv) atomic(e *Expr) []cell {
 	if s.id == biAtomicCompSwap {
 		cmp = in.eval(e.args[1])
 		data = in.eval(e.args[2])
-		in.use(cmp, e, "argument of "+s.name)
+		in.use(cmp, e, s.name)
 	} else {
 		data = in.eval(e.args[1])
 	}
-	in.use(data, e, "argument of "+s.name)
+	in.use(data, e, s.name)
 	old := in.copyVal(in.load(r))
-	in.use(old, e, "memory operand of "+s.name)
+	in.use(old, e, s.name)
 	signed := s.ret == tInt
 	x, y := old[0].bits(), data[0].bits()
 	var nv uint32
